@@ -75,6 +75,10 @@ class Result:
 
     # ---- output
     def finish(self, evidence_path):
+        # a declared rule that met no instance at all passes vacuously: fail closed
+        for rid, r in list(self.rules.items()):
+            if r["obligations"] == 0 and r.get("undecided", 0) == 0:
+                self.bad(rid, "rule", "anchor-lost:vacuous", "rule %s was declared but met no instance on this tree" % rid)
         known, fixed = load_known()
         n_viol = 0
         lines = []
